@@ -66,6 +66,7 @@ class Scenario:
         self.routes, self.hosts, self.listens = [], [], []
         self.tcp_listeners, self.udp_endpoints, self.events = [], [], []
         self.waits = []            # (index of the event it precedes, milliseconds of real time)
+        self.yaml_style = {}       # how the same configuration is written down: merge / global / override (see yaml)
         self.meta = {}
 
     def ip(self, k):
@@ -144,14 +145,33 @@ class Scenario:
                 y += b"    backends:\n"
                 for b in bs:
                     y += b"    - " + b + b"\n"
+        st = self.yaml_style
         if self.routes:
             y += b"  route:\n"
+            # consecutive entries with the same protocol and next hop may share one item (several dests): same table
+            items = []
             for proto, dest, nh in self.routes:
-                y += b"  - dests:\n    - \"" + dest + b"\"\n    protocol: " + proto + b"\n    nexthop: \"" + nh + b"\"\n"
-        if self.hosts:
+                if st.get("merge") and items and items[-1][0] == proto and items[-1][2] == nh:
+                    items[-1][1].append(dest)
+                else:
+                    items.append((proto, [dest], nh))
+            for proto, dests, nh in items:
+                y += b"  - dests:\n" + b"".join(b"    - \"" + d + b"\"\n" for d in dests) + b"    protocol: " + proto + b"\n    nexthop: \"" + nh + b"\"\n"
+        # host names: per service, or in the global table of the file; an entry of the service overrides a global one
+        glob = [h for k, h in enumerate(self.hosts) if st.get("global") and k % 2 == 0]
+        own = [h for h in self.hosts if h not in glob]
+        if st.get("override") and self.hosts:
+            glob = glob + [(own[-1][0] if own else self.hosts[-1][0], self.ip(3))]
+            if not own:
+                own = [self.hosts[-1]]
+        if own:
             y += b"  hosts:\n"
-            for n, i in self.hosts:
+            for n, i in own:
                 y += b"  - name: " + n + b"\n    ip: " + i + b"\n"
+        if glob:
+            y += b"hosts:\n"
+            for n, i in glob:
+                y += b"- name: " + n + b"\n  ip: " + i + b"\n"
         return y
 
     def toks(self):
